@@ -303,7 +303,8 @@ pub fn run(args: &vpc::Args) -> ! {
             continue;
         }
         // the worker task dies: attributed to C06 ("whatever the sequence of lookups ...")
-        let class = format!("panic@{}", loc.rsplit(" @ ").next().unwrap_or(loc).trim_start_matches("/repo/"));
+        let at = loc.rsplit(" @ ").next().unwrap_or(loc);
+        let class = format!("panic@{}", at.find("crates/").map(|i| &at[i..]).unwrap_or(at));
         if run.prop == "C06" {
             run.violation(&class, full, wit.clone());
         } else {
